@@ -1,7 +1,7 @@
 SPECIFICATION GSpec
 CONSTANTS NR = 3
           NEST = TRUE
-          LISTS = TRUE
+          LISTS = "lists"
 CHECK_DEADLOCK FALSE
 INVARIANT Emit
 PROPERTY NoLeak
